@@ -225,6 +225,7 @@ class World(object):
         self.baseline = None
         self.next_mtime = 1500000000
         self.created_outside = set()
+        self.virtual_tex = set()
 
     def destroy(self):
         def onerr(func, path, exc):
@@ -764,6 +765,9 @@ class World(object):
             for k, b in self.baseline.items():
                 if k not in snap and not self._was_consumed_baseline(k):
                     anomalies.append('outside entry vanished: %r' % k)
+        for t in sorted(getattr(self, 'virtual_tex', ())):
+            if t not in tex:
+                tex.append(t)      # an emptied trash directory that a purge removed as a whole (tolerated: see tt.purge_tolerance)
         st = {'live': live, 'dirs': dirs, 'tex': tex, 'items': items, 'orph': orph, 'strays': strays, 'junk': junk}
         self.last_slots = slots
         self.last_snapshot = snap
